@@ -3,9 +3,12 @@ package main
 // Wasm module shapes of the C09 histories (built with wazero's own test encoder).
 
 import (
+	"encoding/binary"
+
 	"github.com/tetratelabs/wazero/internal/leb128"
 	"github.com/tetratelabs/wazero/internal/testing/binaryencoding"
 	"github.com/tetratelabs/wazero/internal/wasm"
+	"github.com/tetratelabs/wazero/verifharness/wb"
 )
 
 const (
@@ -59,7 +62,7 @@ func guestModule(s shape) []byte {
 		m.ImportFunctionCount = 1
 		nimp = 1
 	}
-	tt := wasm.Table{Min: tabSize, Type: wasm.RefTypeFuncref}
+	tt := wasm.Table{Min: tabSize + 1, Type: wasm.RefTypeFuncref} // the extra slot is written by f only
 	if s.Tab == "imp" {
 		m.ImportSection = append(m.ImportSection, wasm.Import{Type: wasm.ExternTypeTable, Module: modName(s.TabFrom), Name: "tab", DescTable: tt})
 		m.ImportTableCount = 1
@@ -76,7 +79,17 @@ func guestModule(s shape) []byte {
 		idx := nimp + uint32(len(m.FunctionSection)) - 1
 		m.ExportSection = append(m.ExportSection, wasm.Export{Name: name, Type: wasm.ExternTypeFunc, Index: idx})
 	}
-	add("f", 0, cat(localGet(0), i32const(tag(s.Idx)), []byte{wasm.OpcodeI32Add}))
+	// f(x) = x + tag, where the tag is (re)loaded from a PASSIVE data segment with memory.init on every call and
+	// one table slot is (re)initialised from a passive element segment: resources that belong to the instance
+	// and must stay usable for as long as something can still call f (also after the instance was closed).
+	m.MemorySection = &wasm.Memory{Min: 1, Max: 1, IsMaxEncoded: true}
+	tb := make([]byte, 4)
+	binary.LittleEndian.PutUint32(tb, uint32(tag(s.Idx)))
+	m.DataSection = []wasm.DataSegment{{Passive: true, Init: tb}}
+	add("f", 0, cat(
+		i32const(16), i32const(0), i32const(4), []byte{wasm.OpcodeMiscPrefix, wasm.OpcodeMiscMemoryInit}, u32(0), []byte{0},
+		i32const(tabSize), i32const(0), i32const(1), []byte{wasm.OpcodeMiscPrefix, wasm.OpcodeMiscTableInit}, u32(0), u32(0),
+		localGet(0), i32const(16), []byte{wasm.OpcodeI32Load, 2, 0}, []byte{wasm.OpcodeI32Add}))
 	add("getf", 1, cat([]byte{wasm.OpcodeRefFunc}, u32(fF)))
 	if s.Imp >= 0 {
 		add("getimp", 1, cat([]byte{wasm.OpcodeRefFunc}, u32(0)))
@@ -99,7 +112,8 @@ func guestModule(s shape) []byte {
 	if s.Tab == "exp" {
 		m.ExportSection = append(m.ExportSection, wasm.Export{Name: "tab", Type: wasm.ExternTypeTable, Index: 0})
 	}
-	return binaryencoding.EncodeModule(m)
+	// passive element segment 0 = [null]: table.init of it writes a null into the last slot
+	return (&wb.Mod{M: m}).BytesWithSegments([]wb.Elem{{Passive: true, Init: []int64{-1}}})
 }
 
 // spinModule: imports env.tick ()->i32; spin(n) calls tick n times (or until tick returns non-zero) and
